@@ -20,7 +20,7 @@ def run(ctx):
         for proto in O.PROTOS:
             if op == "bulkget" and proto == "v1":
                 continue
-            for pert in ["none", "id_plus", "id_minus", "id_arb", "wrong_comm", "wrong_ver"]:
+            for pert in ["none", "id_plus", "id_minus", "id_arb", "id_p32", "id_m32", "id_neg", "id_p64", "wrong_comm", "wrong_ver"]:
                 if pert in ("wrong_comm", "wrong_ver") and proto.startswith("v3"):
                     continue
                 for pat in (patterns if not q else rnd.sample(patterns, 5)):
@@ -39,7 +39,7 @@ def run(ctx):
         for kind in ("echo", "plus1", "minus1"):
             for pat in ([0], [1], [1, 0], [0, 1]):
                 S.append(dict(op="get", oids=[[1, 1]], db=db, proto=proto, disco=kind, ticks=pat, nr=0, mr=0))
-    ctx.rule = ("every operation x v1/v2c/v3 levels x reply kind {echo, id+1, id-1, arbitrary id, other community (incl. prefixes / case variants), "
+    ctx.rule = ("every operation x v1/v2c/v3 levels x reply kind {echo, id+1, id-1, arbitrary id, id+-2^32, id+2^64, -id, other community (incl. prefixes / case variants), "
                 "other version} x clock patterns (increment per read in {0,1}^k, k<=3, and large jumps; start values incl. 2^31-5) applied reactively to "
                 "however many reads the code performs; the v3 discovery exchange with matching / mismatching msgID; every request inside walks "
                 "under a ticking clock; non-trivial = accepted trace of a distinct scenario")
